@@ -35,3 +35,11 @@ Theorem C03_star_ref : forall (Q : Type) (A : enfa Q) (w : list N),
   Lang (fa_star A) w <-> lstar (Lang A) w.
 Proof. exact (@fa_star_lang). Qed.
 Print Assumptions C03_star_ref.
+
+(* get_difference (the right operand is given the joint alphabet, determinised and complemented, then the product) *)
+From PFL Require Import Proofs.EnfaDifference.
+Theorem C03_difference : forall (Q1 Q2 : Type) (E1 : EqDec Q1) (E2 : EqDec Q2) (C2 : Canon Q2) (A : enfa Q1) (B : enfa Q2) (n m : nat)
+    (P : enfa (Q1 * option (list Q2))),
+  wf A -> wf B -> difference_fa A B n m = Some P -> forall w, Lang P w <-> Lang A w /\ ~ Lang B w.
+Proof. exact (@difference_spec). Qed.
+Print Assumptions C03_difference.
